@@ -527,18 +527,20 @@ class AddressBase(Base):
     def _line__host(self, line: str) -> None:
         """Set attributes for host: host A.B.C.D."""
         ip_ = h.findall1(f"({h.OCTETS})", line)
+        wildcard = f"{ip_} 0.0.0.0"
+        wildcard_o = Wildcard(wildcard, platform=self._platform, max_ncwb=self.max_ncwb)
         self._type = "host"
         self._addrgroup = ""
-        wildcard = f"{ip_} 0.0.0.0"
-        self._wildcard = Wildcard(wildcard, platform=self._platform, max_ncwb=self.max_ncwb)
+        self._wildcard = wildcard_o
 
     def _line__prefix(self, line: str) -> None:
         """Set attributes for prefix: A.B.C.D/LEN."""
-        self._type = "prefix"
-        self._addrgroup = ""
         ipnet = h.prefix_to_ipnet(line)
         wildcard = ipnet.with_hostmask.replace("/", " ")
-        self._wildcard = Wildcard(wildcard, platform=self._platform, max_ncwb=self.max_ncwb)
+        wildcard_o = Wildcard(wildcard, platform=self._platform, max_ncwb=self.max_ncwb)
+        self._type = "prefix"
+        self._addrgroup = ""
+        self._wildcard = wildcard_o
 
         if ipnet.prefixlen == 32:
             self._type = "host"
@@ -552,9 +554,10 @@ class AddressBase(Base):
 
     def _line__wildcard(self, line: str) -> None:
         """Set attributes for wildcard: A.B.C.D A.B.C.D."""
+        wildcard_o = Wildcard(line, platform=self._platform, max_ncwb=self.max_ncwb)
         self._type = "wildcard"
         self._addrgroup = ""
-        self._wildcard = Wildcard(line, platform=self._platform, max_ncwb=self.max_ncwb)
+        self._wildcard = wildcard_o
 
         if isinstance(self._wildcard.ipnet, IPv4Network):
             if self._wildcard.ipnet.prefixlen == 32:
